@@ -9,7 +9,7 @@ from sim.worlds import relay
 case = d["case"]
 sim = kernel.Sim(kernel.Chooser(replay=d["choices"]), seed_str="replay", profile=case.get("sched"), keep_log=True)
 w = relay.RelayWorld(sim, case["backend"], case["clients"], preload=case.get("preload"),
-                     cfg=case.get("cfg"))
+                     cfg=case.get("cfg"), rate_limits=case.get("rate_limits"), message_timeout=case.get("message_timeout", 1800), p_buffered=case.get("p_buffered", 0.0), storage_opts=case.get("storage_opts"))
 w.run()
 for c in w.clients:
     print("== client", c.idx, "alive", w.final["alive"].get(c.idx), "finished", c.finished, c.exc)
